@@ -678,8 +678,12 @@ func sliceLines(lines []string, goal string) []string {
 	}
 	ls := make([]ln, len(lines))
 	declared := map[string]bool{}
+	closure := make([]bool, len(lines))
 	for i, l := range lines {
 		e := ln{text: l}
+		if strings.HasPrefix(l, "(assert (forall ((r Int)) (! (=> (and (<= 0 r) (<= r ") || strings.HasPrefix(l, "(assert (forall ((id String)) (! (and (>= (select ") {
+			closure[i] = true
+		}
 		switch {
 		case strings.HasPrefix(l, "(declare-const "):
 			e.kind = 'd'
@@ -715,6 +719,19 @@ func sliceLines(lines []string, goal string) []string {
 			case 'f':
 				hit = used[e.name]
 			case 'a':
+				if closure[i] {
+					// entry-heap closure axiom: relevant only when its array is used; never pulls in more
+					for _, s := range e.syms {
+						if used[s] && (strings.HasPrefix(s, "H0!") || strings.HasPrefix(s, "|H0!")) {
+							hit = true
+							break
+						}
+					}
+					if hit {
+						inc[i] = true
+					}
+					continue
+				}
 				for _, s := range e.syms {
 					if used[s] && (declared[s] || strings.HasPrefix(s, "H0!") || strings.HasPrefix(s, "|H0!")) {
 						hit = true
